@@ -2460,7 +2460,16 @@ def process_text(ctx: "Wtp", text: str) -> None:
                 and ord(token) >= MAGIC_FIRST
                 and ord(token) <= MAGIC_LAST
             ):
+                start_line = ctx.linenum
                 magic_fn(ctx, token)
+                if ctx.linenum != start_line:
+                    # A saved construct ({{...}}, [[...]], ...) may span
+                    # several source lines.  What was opened on the line
+                    # where it starts, e.g. a heading, is still open "on
+                    # this line" (see subtitle_end_fn) after it.
+                    for open_node in ctx.parser_stack:
+                        if open_node.loc == start_line:
+                            open_node.loc = ctx.linenum
             else:
                 t2 = token.strip()
                 if t2 in tokenops:
